@@ -11,10 +11,14 @@ What a call does (`call`):
    its parameter (`storeCast`: no conversion when the static type already is the parameter type — in
    particular never for a by-reference actual); an argument expression may itself call functions (output,
    write-backs and errors of those calls happen then, in order);
-2. a fresh activation environment is built: the parameter slots hold the argument values, every other slot
-   (locals, result variable) holds zero / the empty string — also for a recursive activation;
-3. the body runs in that environment (the caller's is untouched meanwhile: there are no SHARED variables in
-   this phase); `EXIT SUB/FUNCTION` (`exited`) ends the body normally; `END` (`halted`), an error, `inexact`
+2. an ordinary procedure gets a fresh activation environment: the parameter slots hold the argument values,
+   every other slot (locals, result variable) holds zero / the empty string — also for a recursive activation;
+   a STATIC procedure has ONE environment for the whole run (`St.statics f`, all zero at the start): a call
+   rebinds the parameter slots in it and leaves every other slot as the previous activation left it — a
+   recursive activation works on the same environment (so the outer activation finds its parameters and
+   locals as the inner one left them);
+3. the body runs in that environment; `DIM SHARED` variables (`St.glob`) are one store for all scopes;
+   `EXIT SUB/FUNCTION` (`exited`) ends the body normally; `END` (`halted`), an error, `inexact`
    or `outOfFuel` end the whole run;
 4. write-back, left to right: for every actual that is a plain variable `x` (`Expr.isRef`), `x` in the
    caller's environment receives the final value of the corresponding parameter (so the rightmost wins
@@ -28,7 +32,8 @@ is one mutual recursion on fuel (each constructor consumes one unit; the helpers
 `printItems`, `caseMatches`, `anyMatches` do too).  Errors are `(code, position)` and end the run; the
 position of a failed by-value conversion is the argument's position.
 
-Global (not per-activation) state: the output printer, the DATA items and the READ cursor.
+Global (not per-activation) state: the output printer, the DATA items and the READ cursor, the DIM SHARED
+variables, the environments of the STATIC procedures.
 -/
 namespace RbModel.Proc.Ref
 open RbModel RbModel.Num RbModel.Proc
@@ -42,8 +47,14 @@ def codeOutOfData : Nat := 4
 def codeZeroStep : Nat := 258
 
 structure St where
-  /-- the environment of the CURRENT activation -/
+  /-- the environment of the CURRENT activation when it is not an activation of a STATIC procedure -/
   env : List Val
+  /-- `some f`: the current activation belongs to the STATIC procedure `f`; its variables are `statics f` -/
+  self : Option Nat
+  /-- the DIM SHARED variables -/
+  glob : List Val
+  /-- the persistent environment of every (STATIC) procedure -/
+  statics : Nat → List Val
   out : Print.WritePrinter
   data : List Val
   dataIdx : Nat
@@ -61,7 +72,23 @@ inductive Outcome where
   | illFormed
   deriving Inhabited
 
-def St.set (s : St) (x : Nat) (v : Val) : St := { s with env := s.env.set x v }
+/-- the variables of the current activation -/
+def St.locals (s : St) : List Val :=
+  match s.self with
+  | none => s.env
+  | some f => s.statics f
+
+def St.setLocal (s : St) (i : Nat) (v : Val) : St :=
+  match s.self with
+  | none => { s with env := s.env.set i v }
+  | some f => { s with statics := fun g => if g = f then (s.statics f).set i v else s.statics g }
+
+/-- the value of a variable (a slot that was never written reads as zero of its type) -/
+def St.get (s : St) (x : Var) (t : Ty) : Val :=
+  if x.shared then s.glob.getD x.slot (zeroOf t) else s.locals.getD x.slot (zeroOf t)
+
+def St.set (s : St) (x : Var) (v : Val) : St :=
+  if x.shared then { s with glob := s.glob.set x.slot v } else s.setLocal x.slot v
 
 def liftR (s : St) (p : Pos) : Res Val → St × Except Outcome Val
   | .ok v => (s, .ok v)
@@ -98,12 +125,23 @@ def stepSign (p : Pos) (s : Val) : Except Outcome StepSign :=
 def freshEnv (slots : List Ty) (vals : List Val) : List Val :=
   vals ++ (slots.drop vals.length).map zeroOf
 
-/-- by-reference write-back, left to right: `i` = index of the argument = slot of its parameter -/
-def writeBack : Args → Nat → List Val → List Val → List Val
-  | .nil, _, _, env => env
-  | .cons (.var x t _) _ _ rest, i, callee, env =>
-    writeBack rest (i + 1) callee (env.set x (callee.getD i (zeroOf t)))
-  | .cons _ _ _ rest, i, callee, env => writeBack rest (i + 1) callee env
+/-- the environment of a STATIC procedure at the start of a call: the parameters are rebound, every other slot
+keeps the value it has -/
+def rebind (old vals : List Val) : List Val := vals ++ old.drop vals.length
+
+/-- by-reference write-back, left to right: `i` = index of the argument = slot of its parameter; `callee` = the
+callee's variables when it returned, `s` = the state back in the caller's activation -/
+def writeBack : Args → Nat → List Val → St → St
+  | .nil, _, _, s => s
+  | .cons (.var x t _) _ _ rest, i, callee, s =>
+    writeBack rest (i + 1) callee (s.set x (callee.getD i (zeroOf t)))
+  | .cons _ _ _ rest, i, callee, s => writeBack rest (i + 1) callee s
+
+/-- the state in which the body of `d` (procedure `f`) starts, `s1` = the caller's state after the arguments -/
+def enter (d : ProcDecl Stmt) (f : Nat) (vals : List Val) (s1 : St) : St :=
+  if d.static then
+    { s1 with self := some f, statics := fun g => if g = f then rebind (s1.statics f) vals else s1.statics g }
+  else { s1 with self := none, env := freshEnv d.slots vals }
 
 /-- does the body's outcome let the call return? -/
 def returns : Outcome → Bool
@@ -115,7 +153,7 @@ mutual
 def eval (P : Program) : Nat → Expr → St → St × Except Outcome Val
   | 0, _, s => (s, .error .outOfFuel)
   | _ + 1, .lit v _, s => (s, .ok v)
-  | _ + 1, .var x t _, s => (s, .ok (s.env.getD x (zeroOf t)))
+  | _ + 1, .var x t _, s => (s, .ok (s.get x t))
   | fuel + 1, .un op e p, s =>
     match eval P fuel e s with
     | (s1, .ok v) => liftR s1 p (match op with | .neg => negate v | .not => unaryNot v)
@@ -156,13 +194,15 @@ def call (P : Program) : Nat → Nat → Args → St → St × Except Outcome Va
       match evalArgs P fuel args s with
       | (s1, .error o) => (s1, .error o)
       | (s1, .ok vals) =>
-        match exec P fuel d.body { s1 with env := freshEnv d.slots vals } with
+        match exec P fuel d.body (enter d f vals s1) with
         | (s2, o) =>
           if returns o then
             let res := match d.result with
-              | some rt => s2.env.getD d.resultSlot (zeroOf rt)
+              | some rt => s2.locals.getD d.resultSlot (zeroOf rt)
               | none => .int 0
-            ({ s2 with env := writeBack args 0 s2.env s1.env }, .ok res)
+            -- back in the caller's activation: its own environment is as it was (nothing else can name it);
+            -- the SHARED variables and the STATIC environments are as the callee left them
+            (writeBack args 0 s2.locals { s2 with env := s1.env, self := s1.self }, .ok res)
           else (s2, .error o)
 def printItems (P : Program) : Nat → List PrintItem → St → St × Outcome
   | 0, _, s => (s, .outOfFuel)
@@ -306,17 +346,17 @@ def execCases (P : Program) : Nat → Pos → Val → Cases → St → St × Out
     | (s1, .error o) => (s1, o)
     | (s1, .ok true) => exec P fuel body s1
     | (s1, .ok false) => execCases P fuel p subject rest s1
-def forIter (P : Program) : Nat → Nat → Ty → Val → Val → Bool → Stmt → Pos → St → St × Outcome
+def forIter (P : Program) : Nat → Var → Ty → Val → Val → Bool → Stmt → Pos → St → St × Outcome
   | 0, _, _, _, _, _, _, _, s => (s, .outOfFuel)
   | fuel + 1, x, t, h, sv, up, body, p, s =>
-    let cur := s.env.getD x (zeroOf t)
+    let cur := s.get x t
     match relTest p (if up then .lessOrEqual else .greaterOrEqual) cur h with
     | .error o => (s, o)
     | .ok false => (s, .normal)
     | .ok true =>
       match exec P fuel body s with
       | (s', .normal) =>
-        let cur' := s'.env.getD x (zeroOf t)
+        let cur' := s'.get x t
         match (plus cur' sv).bind (fun v => cast v t) with
         | .ok v => forIter P fuel x t h sv up body p (s'.set x v)
         | .err e => (s', .error (codeOf e) p)
@@ -324,9 +364,14 @@ def forIter (P : Program) : Nat → Nat → Ty → Val → Val → Bool → Stmt
       | r => r
 end
 
+/-- the state a run starts in: every variable of every scope is zero / empty -/
+def St.init (P : Program) : St :=
+  { env := P.slots.map zeroOf, self := none, glob := P.gslots.map zeroOf,
+    statics := fun f => match P.procs[f]? with | some d => d.slots.map zeroOf | none => [],
+    out := Print.WritePrinter.new, data := P.data, dataIdx := 0 }
+
 /-- run a whole program -/
 def run (fuel : Nat) (P : Program) : St × Outcome :=
-  exec P fuel P.body
-    { env := P.slots.map zeroOf, out := Print.WritePrinter.new, data := P.data, dataIdx := 0 }
+  exec P fuel P.body (St.init P)
 
 end RbModel.Proc.Ref
